@@ -287,7 +287,7 @@ def run(tier, seed):
     for n in range(0, L + 1):
         hists.extend(itertools.product(ops, repeat=n))
     extra_rng = random.Random(seed)
-    deeper = [tuple(extra_rng.choice(ops) for _ in range(L + 1)) for _ in range(2000 if tier == 'quick' else 20000)]
+    deeper = [tuple(extra_rng.choice(ops) for _ in range(L + 1)) for _ in range(2000 if tier == 'quick' else 60000)]
     # sample sizes beyond 2^32 / 2^53 (where an f64 count is no longer exact) by repeated self-merging of register 0,
     # with a small register 1: lengths must still add exactly and the identities must still hold bit for bit
     for kdbl in (31, 32, 33, 52, 53, 54, 60):
